@@ -43,7 +43,8 @@ ASSUMPTIONS = [
 REQUIRED_COUNTERS = ['scenarios_run', 'streams_judged', 'device_wrte_judged',
                      'acks_judged', 'host_chunks_judged', 'schedules_held',
                      'fault_runs', 'outstanding_checked', 'writes_refused_or_failed',
-                     'close_races', 'slow_device_writes', 'slow_writes_timed_out']
+                     'close_races', 'slow_device_writes', 'slow_writes_timed_out',
+                     'flood_runs']
 EXHAUSTIVE = {'quick': False, 'thorough': False}
 PLAN = {
     'quick': {'workers': 16, 'budget_s': 60, 'sampled_per_worker': 40,
@@ -102,6 +103,12 @@ def enumerated(tier):
   # a local close() racing with the device's CLSE for the same stream
   for idx in range(80):
     yield {'k': 'close', 'idx': idx}
+  # a chatty stream nobody reads yet, while another stream's reader (or the
+  # writer waiting for its OKAY) pumps the connection
+  for n in (10, 64, 65, 80, 300):
+    for mode in ('read_a_then_b', 'two_readers', 'write_a_then_read_b',
+                 'b_answers_and_closes', 'a_write_answered_and_closed'):
+      yield {'k': 'flood', 'n': n, 'mode': mode}
   # the device withholds one OKAY; the host retries (flow control under faults)
   n = 0
   for withhold in (0, 1, 2):
@@ -721,7 +728,133 @@ def run_close(case):
           'counters': c}
 
 
+def run_flood(case):
+  """The device writes n messages to stream B (one outstanding at a time, each
+  acknowledged by the host) before it serves stream A; whoever pumps the
+  connection for A has to park B's messages.  Every call returns, A gets its
+  bytes and B's reader later gets all n messages in order."""
+  from vf import fakeadb
+  ap, exc = _S['ap'], _S['exc']
+  n, mode = case['n'], case['mode']
+  dev = fakeadb.FakeAdbDevice(exc, block=True)
+  dev.feed('CNXN', 0x01000000, MAXDATA, 'device:SER:banner')
+  conn = ap.AdbConnection.connect(dev, timeout_ms=TIMEOUT_MS)
+  state = {'opens': 0, 'sent_b': 0, 'go': False, 'a': None, 'b': None}
+  b_msgs = ['b%04d;' % i for i in range(n)]
+
+  def next_b():
+    i = state['sent_b']
+    if i < n:
+      state['sent_b'] += 1
+      dev.feed('WRTE', 201, state['b'], b_msgs[i])
+    elif i == n:
+      state['sent_b'] += 1
+      if mode == 'b_answers_and_closes':
+        dev.feed('CLSE', 201, state['b'])
+      if mode == 'write_a_then_read_b':
+        dev.feed('OKAY', 200, state['a'])
+      elif mode == 'a_write_answered_and_closed':
+        # the service prints its answer and exits instead of acknowledging
+        dev.feed('WRTE', 200, state['a'], 'done-a')
+        dev.feed('CLSE', 200, state['a'])
+      else:
+        dev.feed('WRTE', 200, state['a'], 'done-a')
+
+  def on_host(msg):
+    _, _, cmd, a0, a1, _ = msg
+    if cmd == 'OPEN':
+      state['opens'] += 1
+      key = 'a' if state['opens'] == 1 else 'b'
+      state[key] = a0
+      dev.feed('OKAY', 200 if key == 'a' else 201, a0)
+    elif cmd == 'OKAY' and a0 == state['b'] and state['go']:
+      next_b()
+    elif cmd == 'WRTE' and a0 == state['a']:
+      state['go'] = True
+      next_b()
+
+  dev.on_host_message = on_host
+  sa = conn.open_stream('svc:a', timeout_ms=TIMEOUT_MS)
+  sb = conn.open_stream('svc:b', timeout_ms=TIMEOUT_MS)
+  res = {}
+
+  def drain_b():
+    got = []
+    try:
+      while len(''.join(got)) < len(''.join(b_msgs)):
+        got.append(sb.read(timeout_ms=TIMEOUT_MS))
+      res['b'] = ''.join(got)
+      if mode == 'b_answers_and_closes':
+        try:
+          sb.read(timeout_ms=TIMEOUT_MS)
+          res['b_end'] = 'data'
+        except Exception as e:  # pylint: disable=broad-except
+          res['b_end'] = type(e).__name__
+    except Exception as e:  # pylint: disable=broad-except
+      res['b'] = ''.join(got)
+      res['b_exc'] = type(e).__name__
+
+  def serve_a():
+    try:
+      if mode == 'write_a_then_read_b':
+        sa.write('ping', timeout_ms=TIMEOUT_MS)
+        res['a'] = 'written'
+      elif mode == 'a_write_answered_and_closed':
+        try:
+          sa.write('ping', timeout_ms=TIMEOUT_MS)
+          res['a_write'] = 'ok'
+        except exc.AdbStreamClosedError:
+          res['a_write'] = 'closed'
+        res['a'] = sa.read(timeout_ms=TIMEOUT_MS)
+      else:
+        res['a'] = sa.read(timeout_ms=TIMEOUT_MS)
+    except Exception as e:  # pylint: disable=broad-except
+      res['a_exc'] = type(e).__name__
+
+  def host():
+    if mode not in ('write_a_then_read_b', 'a_write_answered_and_closed'):
+      state['go'] = True
+      next_b()
+    serve_a()
+    if mode != 'two_readers':
+      drain_b()
+
+  ths = [threading.Thread(target=host, name='W0')]
+  if mode == 'two_readers':
+    ths.append(threading.Thread(target=drain_b, name='R1'))
+  for t in ths:
+    t.start()
+  for t in ths:
+    t.join(40)
+  hung = [t.name for t in ths if t.is_alive()]
+  dev.close()
+  viol = []
+  ctx = {'n': n, 'mode': mode}
+  if hung:
+    viol.append({'mechanism': 'host-thread-never-returned',
+                 'detail': dict(ctx, threads=hung, parked_for_b=state['sent_b'])})
+  else:
+    want_a = 'written' if mode == 'write_a_then_read_b' else 'done-a'
+    if res.get('a') != want_a:
+      viol.append({'mechanism': 'stream-bytes-differ',
+                   'detail': dict(ctx, stream='a', got=repr(res.get('a'))[:60],
+                                  exc=res.get('a_exc'))})
+    if res.get('b') != ''.join(b_msgs) or res.get('b_exc'):
+      viol.append({'mechanism': 'stream-bytes-differ',
+                   'detail': dict(ctx, stream='b', got_len=len(res.get('b') or ''),
+                                  want_len=len(''.join(b_msgs)), exc=res.get('b_exc'))})
+    if mode == 'b_answers_and_closes' and res.get('b_end') != 'AdbStreamClosedError':
+      viol.append({'mechanism': 'read-after-drain-does-not-report-closed',
+                   'detail': dict(ctx, got=res.get('b_end'))})
+  okays = sum(1 for m in dev.host_msgs if m[2] == 'OKAY' and m[3] == state['b'])
+  if not hung and okays != n:
+    viol.append({'mechanism': 'device-wrte-ack-count-differs',
+                 'detail': dict(ctx, okays=okays)})
+  c = {'flood_runs': 1, 'flood_messages_parked': n, 'acks_judged': okays}
+  return {'sig': case, 'violations': viol[:4], 'counters': c}
+
+
 def run_case(case):
-  return {'sched': run_sched, 'stress': run_stress, 'device': run_device,
+  return {'sched': run_sched, 'flood': run_flood, 'stress': run_stress, 'device': run_device,
           'fault': run_fault, 'close': run_close,
           'slowdev': run_slowdev}[case['k']](case)
